@@ -12,6 +12,8 @@ import (
 	"errors"
 	"fmt"
 	"io"
+	"os"
+	"runtime"
 	"sort"
 	"strings"
 	"sync"
@@ -278,6 +280,9 @@ type vfRouteScenario struct {
 	// WMAdvance: the first watermark-only batch after the last scripted batch carries a high watermark this much
 	// above the last batch's (the source's watermark advances without tasks for this cluster)
 	WMAdvance int64 `json:"wm_advance,omitempty"`
+	// HungSource: the source cluster does not end a pull stream when the proxy half-closes it (an unresponsive or dead
+	// source stream: Recv returns only when the stream's context is cancelled)
+	HungSource bool `json:"hung_source,omitempty"`
 	// LatePeers: the instances know each other's shards from the start, but the intra-proxy streams between them come
 	// up only on the action "peers" (a peer that is slow to connect)
 	LatePeers bool `json:"late_peers,omitempty"`
@@ -777,6 +782,7 @@ func (e *vfRouteExec) onSourcePullOpen(cs *vfClientStream) error {
 		e.logf("S%d: the proxy's attempt to open a pull stream fails", s.idx)
 		return errors.New("verif: cannot open the stream towards the source")
 	}
+	cs.noAutoEOF = e.sc.HungSource
 	p := &vfSrcPull{vfClientStream: cs}
 	inc := len(s.pulls)
 	s.pulls = append(s.pulls, p)
@@ -1439,6 +1445,16 @@ func (e *vfRouteExec) teardown(wait func()) []string {
 		}
 		wait()
 	}
+	if e.sc.HungSource {
+		// an unresponsive source never ends its side of a pull stream by itself: "all streams have ended" includes that
+		// these connections are finally torn down (the newest incarnation has no successor that would cancel it)
+		for _, src := range e.src {
+			for _, pl := range src.pulls {
+				pl.breakNow()
+			}
+		}
+		wait()
+	}
 	// streams whose handler is still running get their context cancelled (client went away)
 	var stuck []string
 	for round := 0; round < 3; round++ {
@@ -1469,5 +1485,9 @@ func (e *vfRouteExec) teardown(wait func()) []string {
 	// a back-off sleep of up to 1.28 s before they look at the shutdown signal again
 	time.Sleep(3 * time.Second)
 	wait()
+	if len(stuck) > 0 && os.Getenv("VERIF_DEBUG_STACKS") != "" {
+		buf := make([]byte, 1<<20)
+		os.Stderr.Write(buf[:runtime.Stack(buf, true)])
+	}
 	return stuck
 }
